@@ -17,7 +17,7 @@ type c12Case struct {
 	UTF8, RequireTLS, BinaryMIME, DSN, RRVS bool
 	Size                                    int64  // 0 or N
 	RcptMax                                 int    // 0 or N
-	TLS                                     string // "", "starttls" (available), "implicit" (active), "upgraded" (active via STARTTLS), "wrapped" (active through a TLS listener of the caller's, Server.TLSConfig unset)
+	TLS                                     string // "", "starttls" (available), "implicit" (active), "upgraded" (active via STARTTLS), "wrapped" (active through a TLS listener of the caller's, Server.TLSConfig unset), "failed" (available; an upgrade was attempted and its handshake failed, the connection goes on in the clear)
 	InsecureAuth                            bool
 	AuthBackend                             bool
 	LMTP                                    bool
@@ -27,7 +27,7 @@ type c12Case struct {
 func c12Expected(c c12Case) []string {
 	active := c.TLS == "implicit" || c.TLS == "upgraded" || c.TLS == "wrapped"
 	caps := []string{"PIPELINING", "8BITMIME", "ENHANCEDSTATUSCODES", "CHUNKING"}
-	if c.TLS == "starttls" {
+	if c.TLS == "starttls" || c.TLS == "failed" {
 		caps = append(caps, "STARTTLS")
 	}
 	if (active || c.InsecureAuth) && c.AuthBackend {
@@ -67,10 +67,11 @@ type c12Probe struct {
 }
 
 func c12Run(c c12Case) Verdict {
+	tlsLabel := c.TLS
 	cfg := harness.Config{LMTP: c.LMTP, UTF8: c.UTF8, RequireTLS: c.RequireTLS, BinaryMIME: c.BinaryMIME, DSN: c.DSN, RRVS: c.RRVS,
 		MaxMessageBytes: c.Size, MaxRecipients: c.RcptMax, AllowInsecureAuth: c.InsecureAuth}
 	switch c.TLS {
-	case "starttls", "upgraded":
+	case "starttls", "upgraded", "failed":
 		cfg.TLS = "starttls"
 	case "implicit":
 		cfg.TLS = "implicit"
@@ -102,6 +103,25 @@ func c12Run(c c12Case) Verdict {
 			return Verdict{Inconclusive: "handshake: " + err.Error()}
 		}
 		w.WaitQuiet()
+	}
+	if c.TLS == "failed" {
+		out, st := w.Exchange([]byte(g + " pre\r\nSTARTTLS\r\n"))
+		if st != harness.QIdle || !strings.Contains(string(out), "220 2.0.0 Ready to start TLS") {
+			w.Finish()
+			return failf("starttls", "STARTTLS advertised/configured but not accepted: %s", q(out))
+		}
+		out, st = w.Exchange([]byte("this-is-not-a-tls-handshake\r\n"))
+		frs, ferr := harness.ParseReplies(out)
+		if st == harness.QClosed {
+			w.Finish()
+			return Verdict{Classes: []string{"tls_failed_connection_given_up"}}
+		}
+		if st != harness.QIdle || ferr != nil || len(frs) != 1 || frs[0].Class() == 2 || frs[0].Class() == 3 {
+			w.Finish()
+			return failf("starttls", "plaintext instead of a TLS handshake answered %v (%v, %s)", codes(frs), ferr, st)
+		}
+		// from here on the case is the "available, not active" one
+		c.TLS = "starttls"
 	}
 	active := c.TLS == "implicit" || c.TLS == "upgraded" || c.TLS == "wrapped"
 	fail := func(v Verdict) Verdict { w.Finish(); return v }
@@ -172,7 +192,9 @@ func c12Run(c c12Case) Verdict {
 			c12Probe{"size-at", []string{fmt.Sprintf("MAIL FROM:<a@b> SIZE=%d", c.Size), "RSET"}, []expect{{Code: 250}, {Code: 250}}},
 			c12Probe{"size-over", []string{fmt.Sprintf("MAIL FROM:<a@b> SIZE=%d", c.Size+1), "RSET"}, []expect{{Code: 552}, {Code: 250}}})
 	} else {
-		probes = append(probes, c12Probe{"size-any", []string{"MAIL FROM:<a@b> SIZE=123456789", "RSET"}, []expect{{Code: 250}, {Code: 250}}})
+		probes = append(probes, c12Probe{"size-any", []string{"MAIL FROM:<a@b> SIZE=123456789", "RSET"}, []expect{{Code: 250}, {Code: 250}}},
+			c12Probe{"size-2^32", []string{"MAIL FROM:<a@b> SIZE=4294967296", "RSET"}, []expect{{Code: 250}, {Code: 250}}},
+			c12Probe{"size-2^63-1", []string{"MAIL FROM:<a@b> SIZE=9223372036854775807", "RSET"}, []expect{{Code: 250}, {Code: 250}}})
 	}
 	if c.RcptMax > 0 {
 		p := c12Probe{"rcptmax", []string{"MAIL FROM:<a@b>"}, []expect{{Code: 250}}}
@@ -307,15 +329,15 @@ func c12Run(c c12Case) Verdict {
 		return failf("panic", "server logged a panic: %s", p)
 	}
 	optional := c.UTF8 || c.RequireTLS || c.BinaryMIME || c.DSN || c.RRVS || c.Size > 0 || c.RcptMax > 0 || c.TLS != "" || (c.AuthBackend && c.InsecureAuth)
-	return Verdict{NonTrivial: optional, Classes: []string{"tls_" + c.TLS}}
+	return Verdict{NonTrivial: optional, Classes: []string{"tls_" + tlsLabel}}
 }
 
 func c12All() []c12Case {
 	var out []c12Case
 	for bits := 0; bits < 32; bits++ {
-		for _, size := range []int64{0, 1000} {
+		for _, size := range []int64{0, 1000, 8589934592} {
 			for _, rm := range []int{0, 2} {
-				for _, tls := range []string{"", "starttls", "implicit", "wrapped"} {
+				for _, tls := range []string{"", "starttls", "implicit", "wrapped", "failed"} {
 					for _, ins := range []bool{false, true} {
 						for _, ab := range []bool{false, true} {
 							for _, lmtp := range []bool{false, true} {
@@ -345,7 +367,7 @@ func init() {
 
 func TestC12(t *testing.T) {
 	registerAll()
-	st.Rule = "cases = all 4096 configurations (5 extension flags x size limit x recipient limit x TLS none/available/active/active through a caller-wrapped listener x AllowInsecureAuth x auth-capable backend x SMTP/LMTP), each: exact capability set vs a table, HELO single-line, one probe per extension, lines mixing parameters of enabled and disabled extensions, a DATA transaction after them, AUTH and STARTTLS probes, capability list again after an upgrade; thorough adds random probe orders and TLS activated through STARTTLS; non-trivial = configuration with at least one optional capability; distinct = hash of the configuration"
+	st.Rule = "cases = all 7680 configurations (5 extension flags x size limit none/1000/8 GiB x recipient limit x TLS none/available/active/active through a caller-wrapped listener/available after a failed upgrade x AllowInsecureAuth x auth-capable backend x SMTP/LMTP), each: exact capability set vs a table, HELO single-line, one probe per extension, lines mixing parameters of enabled and disabled extensions, a DATA transaction after them, AUTH and STARTTLS probes, capability list again after an upgrade; thorough adds random probe orders and TLS activated through STARTTLS; non-trivial = configuration with at least one optional capability; distinct = hash of the configuration"
 	if !regress(t, "C12") {
 		return
 	}
@@ -371,7 +393,7 @@ func TestC12(t *testing.T) {
 		if c.TLS == "implicit" && rapid.Bool().Draw(rt, "upgraded") {
 			c.TLS = "upgraded"
 		}
-		c.Order = rapid.Permutation(seqInts(20)).Draw(rt, "order")
+		c.Order = rapid.Permutation(seqInts(22)).Draw(rt, "order")
 		return c
 	})
 }
